@@ -218,6 +218,7 @@ int main(int argc, char ** argv) {
         }
         // rationals n/d over a reduced set of denominators
         std::vector<std::string> dens = {"2", "3", "2147483647", "2147483648", "4294967295", "4294967296", "9223372036854775807", "18446744073709551617"};
+        if (argc > 4 && std::string(argv[4]) == "lite") dens = {"3", "2147483648", "4294967295", "18446744073709551617"};   // quick tier
         for (auto const & n : p) for (auto const & d : dens) vals.push_back(n + "/" + d);
         long fails = 0;
         size_t part = argc > 3 ? std::atoi(argv[2]) : 0, parts = argc > 3 ? std::atoi(argv[3]) : 1;
